@@ -21,7 +21,7 @@ RULE = ("history monitor over ECDH objects: every public call is recorded with i
         "(histories of length <= 8), secrets with leading zero bytes found by search, invalid remote keys, a remote key that "
         "drives the result to infinity. non-trivial key = (curve, local loader, remote loader, history shape, leading zeros, refusal kind)")
 ASSUMPTIONS = ["reference arithmetic and validator (vf/ref)", "calls whose behaviour the statement does not fix (raw bytes before any curve is set) are driven but only 'no secret returned' is judged"]
-REQUIRED = {"quick": ["exchange", "exchange.leading_zero", "loader.local", "loader.remote", "refuse.nokey", "refuse.curve_mismatch", "refuse.nocurve",
+REQUIRED = {"quick": ["exchange.remote_object", "exchange", "exchange.leading_zero", "loader.local", "loader.remote", "refuse.nokey", "refuse.curve_mismatch", "refuse.nocurve",
                       "refuse.invalid_remote", "history", "bytes_padding", "infinity_result"]}
 KF_2T = "two_torsion_conflated_with_identity"
 
